@@ -45,6 +45,18 @@ def closure_names(m, invocable):
     return ins, seen_d
 
 
+def _bkm_closure(m, names):
+    bk = {b["name"]: b for b in m["bkms"]}
+    seen, todo = set(), list(names)
+    while todo:
+        n = todo.pop()
+        if n in seen or n not in bk:
+            continue
+        seen.add(n)
+        todo.extend(bk[n].get("requires", []))
+    return seen
+
+
 def input_contexts(m, rng, invocable):
     """list of (python dict, kind)"""
     decs = {d["name"] for d in m["decisions"]}
@@ -120,6 +132,23 @@ def run(rep, tier, seed):
                     for i in m["inputs"]:
                         if i["name"] not in ins_closure and inv not in [s["name"] for s in m["services"]]:
                             pad[i["name"]] = Decimal(12345) if i["type"] == "number" else "PAD"
+                    # the invoked element's OWN name and the names of decisions / services / knowledge models it does not
+                    # require are outside its requirement closure too (an echoed earlier result must not be returned)
+                    pad[inv] = Decimal(424242)
+                    if inv in [d["name"] for d in m["decisions"]]:
+                        used_bkms = set()
+                        for dn in dec_closure:
+                            used_bkms.update(_bkm_closure(m, [x for d in m["decisions"] if d["name"] == dn for x in d["requires_bkms"]]))
+                        for d in m["decisions"]:
+                            if d["name"] not in dec_closure:
+                                pad[d["name"]] = Decimal(31337)
+                        for b in m["bkms"]:
+                            if b["name"] not in used_bkms:
+                                pad[b["name"]] = "KM"
+                        req_svcs = {x for d in m["decisions"] if d["name"] in dec_closure for x in d["requires_services"]}
+                        for sv in m["services"]:
+                            if sv["name"] not in req_svcs:
+                                pad[sv["name"]] = "SV"
                     calls.append([inv, to_entries(pad)])
                     cmeta.append((inv, inp, kind, True))
         cases.append({"op": "model", "xml": xml, "calls": calls})
